@@ -22,7 +22,7 @@ class AllometryInterpreter(Interpreter):
     def interpret(self, tree):
         children = self.visit_children(tree)
         assert 1 <= len(children) <= 2
-        return Allometry(covariate=children[0], reference=children[1])
+        return Allometry(*children)
 
     def value(self, tree):
         return tree.children[0].value
